@@ -63,7 +63,7 @@ def check_c13(ctx):
     mc = core.model_check(ctx, "SeqDiagramMC", "MCSeqDiagramSmall.cfg" if quick else "MCSeqDiagram.cfg", timeout=2400)
     gen = core.generate(ctx, "FrontendGen", "GenCalls.cfg", num=220 if quick else 3000, depth=400,
                         seed=ctx.seed * 100 + 13, timeout=2400)
-    scn = [{"id": i + 1, "decls": with_teams(complete(g["decls"]), i), "seed": ctx.seed, "starts": [], "text": False, "opts": i % 2 == 0}
+    scn = [{"id": i + 1, "decls": with_teams(complete(g["decls"]), i), "seed": ctx.seed, "starts": [], "text": False, "opts": i % 2 == 0, "mermaid": i % 3 == 0}
            for i, g in enumerate(gen)]
     events, _ = core.vh_sharded(ctx, "seqdiag", scn, timeout=3000)
     # trace ids are per (program, start endpoint) and must be unique across shards
@@ -92,6 +92,13 @@ def check_c13(ctx):
             names = sorted(p["what"])
         elif kind == "REJECT":
             names = ["NoDiagram:" + str(p["what"])]
+        elif kind == "EXTRA":
+            # beyond the listed properties: the Mermaid sequence generator against the same reference walk
+            mm = [e for e in traces[t] if e["e"] == "mermaid"][0]
+            core.add_extra(ctx, "mermaid-sequence/" + "+".join(sorted(p["what"])),
+                           "start %s: %s; arrows %s, lines that are no statement %s, %s; model %s" %
+                           (b["start"], sorted(p["what"]), json.dumps(mm["arrows"])[:300], json.dumps(mm["unknown"])[:200], mm.get("msg", ""), json.dumps(b["eps"])[:400]))
+            continue
         else:
             continue
         recursive_return = _recursion_with_return(b)
@@ -104,6 +111,7 @@ def check_c13(ctx):
            "errors_returned": sum(1 for e in events if e["e"] == "error"),
            "diagrams_with_blackboxes": sum(1 for b in begins.values() if b.get("cut")),
            "diagrams_with_grouping": sum(1 for b in begins.values() if b.get("group")),
+           "mermaid_sequence_diagrams_compared": sum(1 for e in events if e["e"] == "mermaid"),
            "samples": [{"start": b["start"], "eps": b["eps"]} for b in list(begins.values())[:2]]}
     return core.finish(ctx, "model_checking", cov, [
         "models are TLC-generated call graphs over three applications x two endpoints with calls (incl. self calls) anywhere in nested "
